@@ -875,7 +875,8 @@ func (v Value) toReflectValue(typ reflect.Type) (reflect.Value, error) {
 				return reflectAssignable(reflect.ValueOf(vl.value.Interface()), typ)
 			}
 			exported := reflect.ValueOf(v.export())
-			if exported.Type().ConvertibleTo(typ) {
+			// A slice converts to an array type only if it is long enough; other lengths would drop elements.
+			if exported.CanConvert(typ) && (typ.Kind() != reflect.Array || exported.Len() == typ.Len()) {
 				return exported.Convert(typ), nil
 			}
 			return reflect.Value{}, fmt.Errorf("TypeError: could not convert %v to reflect.Type: %v", exported, typ)
